@@ -591,9 +591,13 @@ Fixpoint eval (fuel : nat) (P : program) (env0 : env) (e : expr) {struct fuel}
           | Some d =>
               do (vs, en) <- eval_list args env0;
               if negb (length vs =? length (fn_params d))%nat then Stuck 46 else
-              let en1 := bind_all (push_scope en) (combine (map fst (fn_params d)) vs) in
+              (* lexical scoping: the callee sees its parameters and the global scope (the
+                 outermost one, holding the constants), never the caller's locals; constants
+                 are immutable, so the caller's scopes are unchanged by the call *)
+              let en1 := bind_all (mkEnv [[]; last (scopes en) []] (lenient en))
+                                  (combine (map fst (fn_params d)) vs) in
               do (v, en2) <- exec_block f P (push_scope en1) (fn_body d);
-              Done (v, pop_scope (pop_scope en2))
+              Done (v, mkEnv (scopes en) (lenient en2))
           | None => Stuck 47
           end
       | EJoin _ _ _ _ => Stuck 48       (* the join built-in is specified in Sort/ (C13) *)
@@ -642,7 +646,9 @@ with exec (fuel : nat) (P : program) (env0 : env) (s : stmt) {struct fuel}
       | SLetMut x e =>
           do (v, en) <- eval f P env0 e; Done (unit_val, bind_var en x v)
       | SAssign x accs e =>
-          match lookup_var env0 x with
+          (* the assigned value is evaluated first (as in Rust), then the target is read *)
+          do (nv, en0) <- eval f P env0 e;
+          match lookup_var en0 x with
           | None => Stuck 61
           | Some cur =>
               (* read phase: indices are evaluated in order, each checked against the bounds *)
@@ -684,11 +690,10 @@ with exec (fuel : nat) (P : program) (env0 : env) (s : stmt) {struct fuel}
                          end
                      | _, _ => Stuck 69
                      end
-                 end) accs cur env0 []
+                 end) accs cur en0 []
               |> (fun o =>
-                    do (path, en1) <- o;
-                    do (nv, en2) <- eval f P en1 e;
-                    (* the variable may have been changed by the index/value expressions only
+                    do (path, en2) <- o;
+                    (* the variable may have been changed by the index expressions only
                        through blocks with their own scopes; re-read it *)
                     match lookup_var en2 x with
                     | Some cur2 =>
@@ -796,7 +801,7 @@ Definition run_main (fuel : nat) (P : program) (inputs : list (list bool)) : run
       | Some args =>
           match eval_consts fuel P with
           | Done en0 =>
-              match exec_block fuel P (push_scope (bind_all en0 args)) (fn_body d) with
+              match exec_block fuel P (push_scope (bind_all (push_scope en0) args)) (fn_body d) with
               | Done (v, en) =>
                   match encode ty_fuel P (fn_ret d) v with
                   | Some bits => RunOk bits (lenient en)
